@@ -168,7 +168,7 @@ struct DeepNest {
 
 impl Phase for DeepNest {
     fn name(&self) -> String {
-        "deeply nested sequences (10-60 levels)".into()
+        "deeply nested sequences (10-140 levels), also with a parenthesis too many / too few".into()
     }
     fn len(&self) -> u64 {
         self.n
@@ -198,7 +198,8 @@ impl Phase for DeepNest {
             judge_and_run(out, &toks, &src, false);
             return;
         }
-        let depth = r.range(10, 60);
+        // (a third of them beyond 64 and 128 levels: whatever tracks the open groups has a width)
+        let depth = if r.chance(1, 3) { r.range(60, 140) } else { r.range(10, 60) };
         let mut k = 0i64;
         let mut a = Ast::Const(RV::Int(0));
         for _ in 0..depth {
@@ -222,6 +223,15 @@ impl Phase for DeepNest {
         let src = render_spaced(&toks);
         out.count("deep nests");
         judge_and_run(out, &toks, &src, false);
+        // the same nest with one parenthesis too many / one too few is unbalanced, at whatever depth
+        let mut more = toks.clone();
+        more.push(Tok::Op(")"));
+        super::synt::judge(out, &more, &render_spaced(&more), super::synt::Want::IllFormed, "sequence");
+        if let Some(p) = toks.iter().rposition(|t| t.is_op(")")) {
+            let mut fewer = toks.clone();
+            fewer.remove(p);
+            super::synt::judge(out, &fewer, &render_spaced(&fewer), super::synt::Want::IllFormed, "sequence");
+        }
     }
 }
 
@@ -253,7 +263,12 @@ impl Phase for RandomSeq {
                     }
                 },
                 1 => Ast::Const(RV::Int(*k)),
-                2 => Ast::Read((*r.pick(&["a", "a", "e0", "e1"])).to_string()),
+                2 => Ast::Read((*r.pick(&["a", "a", "e0", "e1", "_", "min", "math::pi", "len"])).to_string()),
+                3 if r.chance(1, 4) => {
+                    // variables named like a discard pattern, a builtin function, a well-known constant: names like any other
+                    let t = *r.pick(&["_", "min", "math::pi", "len", "if"]);
+                    Ast::Assign("=", t.into(), Box::new(Ast::Const(RV::Int(*k))))
+                },
                 3 | 4 => Ast::Assign("=", "x".into(), Box::new(Ast::Const(RV::Int(*k)))),
                 5 => Ast::Call("t".into(), Box::new(Ast::Const(RV::Int(*k)))),
                 6 => {
